@@ -62,7 +62,7 @@ Qed.
 (* ------------------------------------------------------------------ readPtr accounting *)
 (* the size readPtr asks Message.canRead for (None: canRead is not reached) *)
 Definition readPtr_request (strict : bool) (m : segs) (sid : Z) (s : seg) (paddr depth : Z) : option Z :=
-  match resolveFarPointer m sid s paddr with
+  match resolveFarPointer strict m sid s paddr with
   | Ok (dsid, dst, base, val) =>
     if val =? 0 then None else if depth =? 0 then None else
     if pointerType val =? structPointer then
